@@ -330,7 +330,7 @@ func Run(args []string) {
 		nRandom := vh.Pick(10000, 100000)
 		for i := 0; i < nRandom; i++ {
 			r := rand.New(rand.NewSource(seed*1000003 + 909 + int64(i)*7919))
-			emit(randomGraph(r, 6), r)
+			emit(RandomGraph(r, 6, Options{Missing: true}), r)
 		}
 		if vh.Tier() == "thorough" {
 			r := vh.NewRand(910)
